@@ -722,9 +722,9 @@ def mutators():
 # design check
 # ----------------------------------------------------------------------------------------------------------------------
 QUICK_MC = ["Eth2WrapMC_S_duties_q.cfg", "Eth2WrapMC_S_route_q.cfg", "Eth2WrapMC_S_prep_q.cfg", "Eth2WrapMC_S_submit.cfg",
-            "Eth2WrapMC_S_errs.cfg", "Eth2WrapMC_S_live.cfg", "Eth2WrapMC_L_connect.cfg", "Eth2WrapMC_L_valcache_q.cfg",
-            "Eth2WrapMC_L_dutiescache.cfg", "Eth2WrapMC_L_ascoded_dutiescache.cfg", "Eth2WrapMC_L_mix.cfg", "Eth2WrapMC_L_live.cfg",
-            "Eth2WrapMC_V_all.cfg", "Eth2WrapMC_V_live_q.cfg"]
+            "Eth2WrapMC_S_errs.cfg", "Eth2WrapMC_S_live.cfg", "Eth2WrapMC_L_connect_q.cfg", "Eth2WrapMC_L_errcl_q.cfg",
+            "Eth2WrapMC_L_valcache_q.cfg", "Eth2WrapMC_L_dutiescache.cfg", "Eth2WrapMC_L_ascoded_dutiescache.cfg", "Eth2WrapMC_L_mix.cfg",
+            "Eth2WrapMC_L_live.cfg", "Eth2WrapMC_V_all_q.cfg", "Eth2WrapMC_V_nil_q.cfg", "Eth2WrapMC_V_live_q.cfg"]
 THOROUGH_MC = ["Eth2WrapMC_S_duties.cfg", "Eth2WrapMC_S_duties2.cfg", "Eth2WrapMC_S_route.cfg", "Eth2WrapMC_S_prep.cfg",
                "Eth2WrapMC_S_submit.cfg", "Eth2WrapMC_S_errs.cfg", "Eth2WrapMC_S_live.cfg", "Eth2WrapMC_S_ascoded_duties.cfg",
                "Eth2WrapMC_S_ascoded_route.cfg", "Eth2WrapMC_L_connect.cfg", "Eth2WrapMC_L_valcache.cfg", "Eth2WrapMC_L_dutiescache.cfg",
@@ -887,13 +887,37 @@ def main(tier="quick", seed=1, pid="GETH2WRAP"):
 
 
 def probe_flags(o, kw):
-    """the deviations of the tree: one directed probe each, through the regular known-finding path (a rejected probe is
-    re-executed and then tried against the configuration that switches exactly its deviation on)"""
-    before = len(o.known)
-    vlib.conformance(o, FAMILY, TRACE, TCFG, PKG, [mk() for _, mk in PROBES], tag="e2wprobe", max_report=len(PROBES),
-                     dev_cfgs=[(fid, DEV_CFG[fid]) for fid, _ in PROBES], **kw)
-    found = {k for k, _ in o.known[before:]}
-    return [sw for fid, sw, _ in FINDINGS if fid in found]
+    """The deviations of the tree: one directed probe each.  Fast path: the probes are executed once and validated against the strict
+    configuration and, each, against the configuration that switches exactly its deviation on; strict rejects + deviation accepts =
+    the known finding.  Anything else that is rejected goes through vlib.conformance (re-execution, replay file, VIOLATION)."""
+    env = kw.get("env")
+    scheds = [mk() for _, mk in PROBES]
+    traces, sids, wall = vlib.run_schedules(o.pid, PKG, "TestExec", scheds, tag="e2wprobe", env=env)
+    if len(traces) != len(scheds) or sids != list(range(len(scheds))):
+        raise vlib.Infra("probes: %d traces for %d schedules" % (len(traces), len(scheds)))
+    strict = vlib.validate_traces(o.pid, FAMILY, TRACE, TCFG, traces)
+    dev = vlib.validate_traces(o.pid, FAMILY, TRACE, lambda t: DEV_CFG[PROBES[t[0]["sid"]][0]], traces)
+    o.schedules += len(scheds)
+    o.traces += len(traces)
+    o.trace_events += sum(len(t) for t in traces)
+    o.trace_states += strict.states + dev.states
+    rej = {i: (pos, why) for i, pos, why in strict.rejected}
+    devrej = {i for i, _, _ in dev.rejected}
+    log("[%s] %s/probes: %d schedules executed in %.1fs: strict accepts %d, deviation configurations accept %d"
+        % (o.pid, FAMILY, len(scheds), wall, len(strict.accepted), len(traces) - len(devrej)))
+    flags, redo = [], []
+    for k, (fid, _) in enumerate(PROBES):
+        if k not in rej:
+            continue
+        if k in devrej:
+            redo.append(k)
+            continue
+        pos, why = rej[k]
+        o.known.append((fid, "%s at event %d %s" % (why, pos, json.dumps(traces[k][pos] if pos < len(traces[k]) else None)[:200])))
+        flags.append([sw for f, sw, _ in FINDINGS if f == fid][0])
+    for k in redo:
+        vlib.conformance(o, FAMILY, TRACE, TCFG, PKG, [scheds[k]], tag="e2wprobe%d" % k, dev_cfgs=[(PROBES[k][0], DEV_CFG[PROBES[k][0]])], **kw)
+    return [sw for _, sw, _ in FINDINGS if sw in flags]
 
 
 def replay(path):
